@@ -151,6 +151,11 @@ func c15Mutate(r *wk.Rand, orig *gen.Shape) (*gen.Shape, string) {
 				n.Disc = n.Disc + "x"
 				return m, "one-of discriminator renamed"
 			}
+			// an inlined discriminator is a property of every member: renaming it only builds if the one-of stops
+			// inlining (the members keep the old name as an ordinary property)
+			n.Disc = n.Disc + "x"
+			n.Inlined = false
+			return m, "one-of discriminator renamed and no longer inlined"
 		}
 	}
 	return m, "unchanged"
